@@ -89,7 +89,7 @@ class C11(EngineProp):
         "exceptions are compared by type name and message",
     ]
     gen_kwargs = dict(collect=True, waits=True, retries=True, resume=True, unhandled=True, cancel=True, timeouts=True, stop_mode="any", nonevent=True, reply_step=True, ask=True, ask_consumer=True)
-    budgets = {"quick": 800, "thorough": 5000}
+    budgets = {"quick": 600, "thorough": 5000}
     wall = {"quick": 60.0, "thorough": 900.0}
     probe = False
 
